@@ -2,7 +2,7 @@
 specification is written once and evaluated symbolically (assertion) and concretely (replay oracle)."""
 import z3
 from engine.llir.xr import (XR, b_and, b_or, b_not, b_ite, b_eq, b_implies, fadd, fsub, fmul, fdiv, fneg, fabs_,
-                            fisnan, fisfinite, flt, fle, fgt, fge, feq, fite, fsame, fmin, fmax, lift, is_conc, zbool)
+                            fisnan, fisfinite, flt, fle, fgt, fge, feq, fite, fsame, fmin, fmax, lift, is_conc)
 
 
 def iite(c, a, b):
@@ -45,3 +45,8 @@ def ieq(a, b):
 
 def is_true(c):
     return c is True
+
+
+def zbool(b):
+    """kept for readability in specs: conditions may be python bools (concrete oracle) or z3 terms"""
+    return b
